@@ -86,11 +86,16 @@ def gen_value(rng, prefixes):
 
 def gen_container(rng, prefixes, nrec):
     c = {}
+    again = None
     for _ in range(nrec):
-        kind = rng.choice(list(KINDS))
+        if again is not None and rng.random() < 0.3:
+            kind, ident = again               # a record array: the same kind and identifier again
+        else:
+            kind = rng.choice(list(KINDS)) if rng.random() < 0.85 else "hadMember"
+            p = rng.choice(prefixes)
+            ident = p + ":" + rng.choice(LOCALS) if (kind in ELEMENTS or rng.random() < 0.5) else "_:id%d" % rng.randrange(1, 4)
+        again = (kind, ident)
         formals = KINDS[kind]
-        p = rng.choice(prefixes)
-        ident = p + ":" + rng.choice(LOCALS) if (kind in ELEMENTS or rng.random() < 0.5) else "_:id%d" % rng.randrange(1, 4)
         rec = {}
         for i, f in enumerate(formals):
             if rng.random() < (0.9 if i < 2 else 0.45):
